@@ -34,6 +34,10 @@ func runC08(c string) string {
 			}
 			results = append(results, r)
 			exec.VerifInvNames[exec.VerifResultInv(r)] = fmt.Sprintf("R%d", i)
+			if exec.VerifTasksEnvWritable(r) {
+				// a real Session.Run left tasks whose invocation copy a worker could still write to
+				return "preerr envwritable"
+			}
 		}
 	}
 	fn := progFunc0
